@@ -62,6 +62,7 @@ class Contract:
         gen=None,
         pure_check=False,
         ensures_rt=(),
+        ensures_t1=(),
         ghost=None,
         variant=None,
     ):
@@ -92,6 +93,9 @@ class Contract:
         # postconditions evaluated only by the run-time monitor (outside the
         # prover's expression subset; never counted as proved)
         self.ensures_rt = list(ensures_rt)
+        # postconditions only the prover evaluates (mention ghost state that
+        # has no native counterpart)
+        self.ensures_t1 = list(ensures_t1)
         # ghost parameters: name -> (type, native expression); symbolically a
         # fresh value constrained by `requires`
         self.ghost = dict(ghost or {})
